@@ -7,6 +7,12 @@ let () =
     | "PAGE" -> Page.run
     | "MAP" -> Mapsuite.run
     | "ENGINE" | "FAULT" | "TERM" -> Enginesuite.run
+    | "NETENG" ->
+      (* the question here is isolation only: the model evaluates the rows of network A alone; the implementation
+         runs with a shadow network present.  A different answer means the other network influenced it. *)
+      (fun i o -> let (m, _) = Enginesuite.run i o in
+        if m = "-" || (String.length m >= 4 && String.sub m 0 4 = "SKIP") then (m, "na")
+        else (m, if m = o then "pass" else "fail:answer-differs-from-the-answer-computed-on-this-network's-rows-alone"))
     | "TRANSPORT" -> Transportsuite.run
     | "EXPAND" -> Expandsuite.run
     | "OPL" | "TYPECHK" -> Oplsuite.run
